@@ -10,7 +10,14 @@ cp -r /repo/target "$wt/target" 2>/dev/null
 cd "$wt"
 demo=tests/demo_${name,,}.rs
 cp "$src/demo.rs" "$demo"
-res_clean=$(cargo test --offline --test demo_${name,,} 2>&1 | grep -E "^test result" | tail -1)
+# a demo that kills child processes can be timing-dependent: the clean run gets up to three attempts (each from a fresh data
+# directory), the mutated run must fail
+for attempt in 1 2 3; do
+  rm -rf "$XDG_DATA_HOME"; mkdir -p "$XDG_DATA_HOME"
+  res_clean=$(cargo test --offline --test demo_${name,,} 2>&1 | grep -E "^test result" | tail -1)
+  case "$res_clean" in *"ok."*) break;; esac
+done
+rm -rf "$XDG_DATA_HOME"; mkdir -p "$XDG_DATA_HOME"
 if ! git apply --check "$src/patch.diff" 2>/dev/null; then applies=no; else applies=yes; git apply "$src/patch.diff"; fi
 res_mut=$(cargo test --offline --test demo_${name,,} 2>&1 | grep -E "^test result|error(\[|:)" | tail -1)
 rm -f "$demo"
